@@ -315,6 +315,8 @@ impl Default for ZipOffsetBlobStoreBuilder {
 pub struct BatchZipOffsetBlobStoreBuilder {
     inner: ZipOffsetBlobStoreBuilder,
     batch_buffer: FastVec<u8>,
+    /// Length of each record held in `batch_buffer`, in insertion order
+    batch_record_lens: Vec<usize>,
     batch_size: usize,
     records_in_batch: usize,
 }
@@ -325,6 +327,7 @@ impl BatchZipOffsetBlobStoreBuilder {
         Ok(Self {
             inner: ZipOffsetBlobStoreBuilder::new()?,
             batch_buffer: FastVec::new(),
+            batch_record_lens: Vec::new(),
             batch_size,
             records_in_batch: 0,
         })
@@ -335,6 +338,7 @@ impl BatchZipOffsetBlobStoreBuilder {
         Ok(Self {
             inner: ZipOffsetBlobStoreBuilder::with_config(config)?,
             batch_buffer: FastVec::new(),
+            batch_record_lens: Vec::new(),
             batch_size,
             records_in_batch: 0,
         })
@@ -342,9 +346,12 @@ impl BatchZipOffsetBlobStoreBuilder {
 
     /// Add record to batch
     pub fn add_record(&mut self, data: &[u8]) -> Result<RecordId> {
-        // Add to batch buffer
+        // ID of this record: records already flushed plus records waiting in the batch
+        let record_id = self.len();
+
+        // Add to batch buffer, remembering where the record ends
         self.batch_buffer.extend(data.iter().cloned())?;
-        self.batch_buffer.push(0)?; // Record separator
+        self.batch_record_lens.push(data.len());
         self.records_in_batch += 1;
 
         // Flush batch if it's full
@@ -352,7 +359,7 @@ impl BatchZipOffsetBlobStoreBuilder {
             self.flush_batch()?;
         }
 
-        Ok(self.inner.len() as u32) // Return next record ID
+        Ok(record_id as u32)
     }
 
     /// Flush current batch to inner builder
@@ -361,14 +368,16 @@ impl BatchZipOffsetBlobStoreBuilder {
             return Ok(());
         }
 
-        // For now, just process the entire buffer as one record
-        // TODO: Implement proper record separation
-        if !self.batch_buffer.is_empty() {
-            self.inner.add_record(&self.batch_buffer.as_slice())?;
+        // Hand the records over one by one, in insertion order
+        let mut start = 0;
+        for &len in &self.batch_record_lens {
+            self.inner.add_record(&self.batch_buffer.as_slice()[start..start + len])?;
+            start += len;
         }
 
         // Clear batch
         self.batch_buffer.clear();
+        self.batch_record_lens.clear();
         self.records_in_batch = 0;
 
         Ok(())
